@@ -491,8 +491,10 @@ Definition respond_read_index (r : raft) (req : message) (readIndex : N) : res r
 
 (* sendMsgReadIndexResponse *)
 Definition send_msg_read_index_response (r : raft) (m : message) : res raft :=
-  (* only one voting member (the leader): no quorum round is needed *)
-  if is_singleton (t_config (r_trk r)) then respond_read_index r m (l_committed (r_log r)) else
+  (* only one voting member, the leader itself: no quorum round is needed (a leader that was removed
+     from the configuration and has not stepped down is not that member) *)
+  if existsb (N.eqb (r_id r)) (c_voters (t_config (r_trk r))) && is_singleton (t_config (r_trk r))
+  then respond_read_index r m (l_committed (r_log r)) else
   match ro_option (r_read_only r) with
   | ReadOnlySafe =>
       let ro := ro_add_request (r_read_only r) (l_committed (r_log r)) m in
